@@ -52,7 +52,7 @@ def generate(ctx):
     cases = []
     for i in range(ctx.budget(140, 1200)):
         types = ["int64", "double", "string", "bool"]
-        schema = gen.gen_schema(rng, 3, types=types)
+        schema = gen.spice_names(rng, gen.gen_schema(rng, 3, types=types))
         n = rng.randint(0, 6 if ctx.tier == "quick" else 10)
         # numpy hands ints with nulls over as floats: keep int fields null-free so that values compare exactly
         rows_g = gen.gen_rows(rng, schema, n, max_len=4, null_p=0.0)
